@@ -9,7 +9,10 @@ Tie (model layer, generated modules of lib/modcorpus.py):
        as the independent re-encoder for the same choices;
  UPER  the X.691 reading of the model where it differs from the C's own encoding;
  OER   long-form length determinants with leading zero octets, padded quantities;
- XER   layout variants of the C's own BASIC/CANONICAL output (oracle on the C alone)."""
+ XER   layout variants of the C's own BASIC/CANONICAL output (oracle on the C alone);
+       VALUE-LEVEL variants (lib/c03_xval.py): every character of every string type in every legal spelling, hstring / bstring
+       bodies in either case with white space / comments, number and value items with white space around; expected DER computed
+       in Python; the text reader also against the extracted model (Rt/ResumeX.v, Rt/EntrefComplete.v)."""
 import sys, os
 sys.path.insert(0, os.path.join(os.path.dirname(os.path.abspath(__file__)), "..", "lib"))
 from vlib import *
@@ -20,6 +23,8 @@ import ext_layer            # extensibility layer (lib/ext_layer.py, notes/desig
 import c03_tagmap as TM
 import c03_oerpos as P
 import c03_regions as RG
+import c03_xval as XV
+import c05x_util as X5
 
 F_CHAIN = "C03-ber-chain-mixed-lengths"
 
@@ -355,7 +360,13 @@ def main(tier):
     sm = U.string_module()
     mt1, mt2 = TM.modules(tier)
     mo5 = RG.wide_module()
-    build_modules([sm, mt1, mt2, mo5], tag="c03x", moddrv_extra=os.path.join(HARNESS, "moddrv_c03.inc"))
+    # value-level XER variants (lib/c03_xval.py): MS5 of lib/c05x_util.py and the directed module MX6
+    ms5, mx6 = X5.string_module(), XV.module()
+    build_modules([sm, mt1, mt2, mo5, ms5, mx6], tag="c03x", moddrv_extra=os.path.join(HARNESS, "moddrv_c03.inc"))
+    for m in (ms5, mx6):
+        if not m.get("exe"):
+            run.violation("build:module", {"what": "a hand-written module of string / number types was rejected or its code does not compile", "module": m["text"],
+                                           "asn1c_out": m.get("asn1c_out", "")[-1200:], "build_log": m.get("build_log", "")[-1200:]})
     mods += [sm, mt1]
     sc = []
     if sm.get("exe"):
@@ -401,7 +412,10 @@ def main(tier):
     RG.wide_oer_part(run, mo5, rng, tier)
     log("C03: oer %.1fs" % (time.time() - t0)); t0 = time.time()
     xer_part(run, mods, cases, rng, tier)
-    log("C03: xer %.1fs" % (time.time() - t0))
+    log("C03: xer %.1fs" % (time.time() - t0)); t0 = time.time()
+    # a stream of its own: the corpus of the earlier rounds stays what it was
+    XV.run_part(run, model, ms5, mx6, Rng(run.seed * 1000003 + 36), tier, run_mod, run_lines)
+    log("C03: xer value-level variants %.1fs" % (time.time() - t0))
     # the ext layer builds its modules and values itself; they are captured here for the OER determinant sweep
     captured = {}
     orig_build, orig_encode = ext_layer.build, ext_layer.model_encode
@@ -424,7 +438,7 @@ def main(tier):
     ext_oer_part(run, model, captured, Rng(run.seed * 1000003 + 33), tier)
     log("C03: ext oer sweep %.1fs" % (time.time() - t0))
     tb = ["Coq 8.16.1 kernel", "axioms under Print Assumptions: " + (", ".join(sorted(axioms)) or "none (Closed under the global context)"),
-          "extraction: ExtrOcamlBasic only; OCaml 4.13.1", "lib/c03_util.py (independent variant generators), lib/modgen.py, harness/moddrv.c, gcc + ASan/UBSan"]
+          "extraction: ExtrOcamlBasic only; OCaml 4.13.1", "lib/c03_util.py, lib/c03_xval.py, lib/c05x_util.py (independent variant generators and expected values), lib/modgen.py, harness/moddrv.c, gcc + ASan/UBSan"]
     return run.finish("proof", (nthm, ndis), trusted_base=tb,
                       checker_cmd="make -C /verif all && coqc -Q coq A1 coq/Props/Properties_C03.v",
                       extra_cov={"theorems": names, "modules": len(mods),
